@@ -2,8 +2,15 @@
    Proved (generic, about sequences of block writes): if every write of an operation's write sequence lands outside a
    set of protected blocks, then after ANY prefix of the sequence every protected block still holds its old content -
    this is what turns the per-write frame check of checks/c18.py into the statement about every interruption point.
-   The frame check itself (which blocks each operation of the library writes) is decided per explored history. *)
+   Proved on the file handle model (Model/FileIO.v, adf_file.c statement by statement, tied by the call-level correspondence
+   checks/fileiocorr.py): EVERY call on a coherent handle - read, seek, write, truncate (same size, growing, shrinking), flush, close,
+   and the creation / opening of a file - leaves every block of the volume outside the file's own header, data and extension blocks
+   exactly as it was; the only blocks a file gains are blocks the allocator named in answer to this call.  So the blocks of every other
+   file and directory, and every metadata block that is not this file's, are bystanders of every handle call, for all sizes, positions
+   and data.  The frame of the other operations of the library (directory operations, the bitmap and directory-cache writes of a
+   flush) is decided per explored history by the write-log check. *)
 From Coq Require Import ZArith List Bool.
+From ADF Require Model.FileIO Proofs.FileIOFr Proofs.FileIOP.
 Import ListNotations.
 Local Open Scope Z_scope.
 
@@ -49,5 +56,74 @@ Proof.
   intros w Hw E. apply in_firstn in Hw. rewrite <- E. apply H; [exact Hw|rewrite E; exact Hb].
 Qed.
 
+(* ---- the file handle calls ---- *)
+Module H.
+Import ADF.CPrelude ADF.Model.FileIO ADF.Proofs.FileIOL ADF.Proofs.FileIOFr ADF.Proofs.FileIOP.
+
+Theorem C18_handle_read : forall bs ofs key, 0 < bs -> forall s L E ct n, Inv bs ofs key s L E -> Repr bs s L ct -> 0 <= n ->
+  Fr (key :: L ++ E) s (fst (fio_read bs ofs nobad s n)).
+Proof.
+  intros bs ofs key Hbs s L E ct n I R Hn.
+  destruct (fio_read_ok_fr bs ofs key Hbs s L E ct n I R Hn) as (s' & r & Hrd & _ & _ & Hrest). rewrite Hrd. cbv zeta in Hrest. apply Hrest.
+Qed.
+
+Theorem C18_handle_seek : forall bs ofs key s L E p, Inv bs ofs key s L E -> Fr (key :: L ++ E) s (snd (fio_seek bs ofs nobad s p)).
+Proof. exact fio_seek_frame. Qed.
+
+(* a write: the state stays coherent with block lists L', E' that keep the old ones and gain only blocks the allocator named; nothing outside
+   header :: L' ++ E' changes - in particular no block that was in use by anything else (the allocator oracle `al_ok` hands out blocks the
+   file does not own; that they are free is C04) *)
+Theorem C18_handle_write : forall bs ofs key, 0 < bs -> forall s L E ct data al, Inv bs ofs key s L E -> Repr bs s L ct -> mw s = true -> al_ok key L E al ->
+  exists s' w al' L' E', fio_write bs ofs nobad s data al = (s', w, al') /\ Inv bs ofs key s' L' E' /\
+    Fr (key :: L' ++ E') s s' /\ Grows L E L' E' al al'.
+Proof.
+  intros bs ofs key Hbs s L E ct data al I R Hw Hal.
+  destruct (fio_write_ok_fr bs ofs key Hbs s L E ct data al I R Hw Hal) as (s' & w & al' & L' & E' & H1 & H2 & _ & _ & _ & _ & _ & _ & _ & H3 & H4).
+  exists s', w, al', L', E'. split; [exact H1|split; [exact H2|split; [exact H3|exact H4]]].
+Qed.
+
+Theorem C18_handle_truncate_same : forall bs ofs key s L E al, Inv bs ofs key s L E ->
+  Fr (key :: L ++ E) s (snd (fst (fst (fio_truncate bs ofs nobad s (fsize s) al)))).
+Proof. exact fio_truncate_same_fr. Qed.
+
+Theorem C18_handle_truncate_grow : forall bs ofs key, 0 < bs -> forall s L E ct al sizeNew, Inv bs ofs key s L E -> Repr bs s L ct -> mw s = true -> al_ok key L E al -> fsize s < sizeNew ->
+  exists ok s' al' L' E', fio_truncate bs ofs nobad s sizeNew al = (ok, s', [], al') /\ Inv bs ofs key s' L' E' /\ Fr (key :: L' ++ E') s s' /\ Grows L E L' E' al al'.
+Proof. exact fio_truncate_grow_fr. Qed.
+
+(* a shrinking truncation changes only the file's own (old) blocks; the blocks it gives back are still untouched on the volume *)
+Theorem C18_handle_truncate_shrink : forall bs ofs key s L E al new, Inv bs ofs key s L E -> mw s = true -> new < fsize s ->
+  Fr (key :: L ++ E) s (snd (fst (fst (fio_truncate bs ofs nobad s new al)))).
+Proof. exact fio_truncate_shrink_fr. Qed.
+
+Theorem C18_handle_flush_close : forall bs ofs key s L E, Inv bs ofs key s L E ->
+  Fr (key :: L ++ E) s (fio_flush bs ofs s) /\ forall n, ~ In n (key :: L ++ E) -> fio_close bs ofs s n = dk s n.
+Proof. intros bs ofs key s L E I. split; [exact (fio_flush_fr bs ofs key s L E I)|exact (fio_close_fr bs ofs key s L E I)]. Qed.
+
+Theorem C18_handle_new_open : forall bs ofs key d r w,
+  (forall n, n <> key -> dk (fio_new bs d key r w) n = d n) /\ dk (snd (fio_open bs ofs nobad d key r w)) = d.
+Proof. intros. split; [exact (fio_new_fr bs key d r w)|exact (fio_open_fr bs ofs key d r w)]. Qed.
+
+(* not vacuous: a 3-block file next to a foreign block 950; write 600 bytes at its end with the allocator naming 903 and 904 *)
+Example C18_handle_example :
+  let bs := 512 in
+  let h := {| h_key := 900; h_size := 0; h_first := 0; h_high := 0; h_tab := zerosZ 72; h_ext := 0 |} in
+  let d0 : disk := fun k => if k =? 950 then BData {| d_bytes := [7]; d_next := 0; d_size := 1; d_seq := 1; d_key := 77 |} else BOther in
+  let s0 := fio_new bs d0 900 true true in
+  let '(s1, w1, _) := fio_write bs false nobad s0 (zerosZ 1300) [Some (901, 0); Some (902, 0); Some (903, 0)] in
+  let '(s2, w2, _) := fio_write bs false nobad s1 (zerosZ 600) [Some (904, 0); Some (905, 0)] in
+  let '(ok, s3, rem, _) := fio_truncate bs false nobad s2 100 [] in
+  (w1, w2, ok, rem, match dk s3 950 with BData d => d_bytes d | _ => [] end, match fio_close bs false s3 950 with BData d => d_key d | _ => 0 end)
+  = (1300, 600, true, [902; 903; 904], [7], 77).
+Proof. vm_compute. reflexivity. Qed.
+End H.
+
 Print Assumptions C18_prefix_integrity.
+Print Assumptions H.C18_handle_read.
+Print Assumptions H.C18_handle_seek.
+Print Assumptions H.C18_handle_write.
+Print Assumptions H.C18_handle_truncate_same.
+Print Assumptions H.C18_handle_truncate_grow.
+Print Assumptions H.C18_handle_truncate_shrink.
+Print Assumptions H.C18_handle_flush_close.
+Print Assumptions H.C18_handle_new_open.
 Print Assumptions C18_prefix_integrity_same_content.
